@@ -82,6 +82,7 @@ const (
 	// A strategy may starve a task for a long time, so this is inconclusive, not a liveness verdict.
 	FailStepBudgetUnfair FailureKind = "step-budget-unfair"
 	FailHarness          FailureKind = "harness"
+	FailSetup            FailureKind = "setup" // the harness could not set the run up (never a verdict)
 )
 
 type Failure struct {
@@ -294,6 +295,12 @@ func (w *World) abort(f *Failure) {
 	}
 	w.end()
 	runtime.Goexit()
+}
+
+// AbortSetup stops the run because the harness could not set it up (e.g. the cache constructor
+// rejected the harness's internal tuning knobs): infrastructure trouble, never a verdict.
+func (w *World) AbortSetup(detail string) {
+	w.abort(&Failure{Kind: FailSetup, Detail: detail, Step: w.Steps})
 }
 
 // Abort lets the harness stop the run with a failure.
